@@ -72,6 +72,14 @@ def run(tier, seed):
         for f in r['fields']:
             if '*' in f['ty'] or f['ty'].rstrip().endswith('&'):
                 key = (qn, f['name'])
+                ty = f['ty'].strip()
+                if key not in allow and ty.startswith('const ') and (ty.endswith('*') or ty.endswith('* const')) and ty.count('*') == 1 \
+                        and any(b in ty for b in ('double', 'float', 'int', 'char', 'long', 'bool', 'unsigned', 'short')):
+                    # pointer to constant scalars (a view on a literal table): nothing can be written through it, and what it points
+                    # to - if it has static storage - is judged by STATICS.immutable
+                    rep.add('OWNERSHIP', '%s::%s' % key, where({'file': r['file'], 'l': f['l']}),
+                            '%s::%s (%s): read-only view on constant scalars' % (qn, f['name'], f['ty']), True, nontrivial=False)
+                    continue
                 rep.add('OWNERSHIP', '%s::%s' % key, where({'file': r['file'], 'l': f['l']}),
                         '%s::%s (%s): %s' % (qn, f['name'], f['ty'], allow.get(key, 'NOT in the reviewed table')),
                         key in allow)
